@@ -1,7 +1,7 @@
 (* C02 — property theorems (statements only; proofs live in Acme.C02.Proofs*, specification
    vocabulary in Acme.C02.Spec, the model in Acme.C02.Model). *)
 From Coq Require Import ZArith List Bool.
-From Acme.C02 Require Import Model Spec ProofsBits ProofsFilters Proofs History HistoryProofs ComposeC01.
+From Acme.C02 Require Import Model Spec ProofsBits ProofsFilters Proofs History HistoryProofs ComposeC01 Reattach ReattachProofs.
 Import ListNotations.
 Local Open Scope Z_scope.
 
@@ -169,3 +169,18 @@ Theorem masks_reachable : forall ops m be kind,
      In f (sig_filters a) -> In g (sig_filters b) -> f_byte f = f_byte g -> Z.land (f_mask f) (f_mask g) = 0).
 Proof. exact ComposeC01.masks_reachable. Qed.
 Print Assumptions masks_reachable.
+
+(* --- hypothesis made explicit: byte_order_propagates is about ONE message, i.e. signals that are
+       placed in at most one message.  Go also accepts a signal that already sits in another message
+       (open finding D20, C05).  On the model with two messages and signal objects (Acme.C02.Reattach):
+       under no_reattach the byte order propagates in both messages, without it it does not *)
+Theorem byte_order_propagates_two_messages : forall ops, no_reattach ops ->
+  propagated (rrun ops) 0 /\ propagated (rrun ops) 1.
+Proof. exact ReattachProofs.byte_order_propagates_two_messages. Qed.
+Print Assumptions byte_order_propagates_two_messages.
+
+Theorem byte_order_reattach_refuted :
+  exists ops, ~ no_reattach ops /\ ~ propagated (rrun ops) 0 /\
+              In 7 (msg_sigs (rrun ops) 0) /\ sig_be (rrun ops) 7 = true /\ msg_be (rrun ops) 0 = false.
+Proof. exact ReattachProofs.byte_order_reattach_refuted. Qed.
+Print Assumptions byte_order_reattach_refuted.
